@@ -301,12 +301,12 @@ class X86Model(object):
             self._mmxnodes = (chain, digit_chain, memsize)
         return self._mmxnodes
 
-    def _mmx_scope(self, name, prefix):
+    def _mmx_scope(self, name, prefix, admode=None):
         from .consteval import Native
         afs = self.afs
         me = Obj('self')
         # mode at the entry of the selection: the 0x66 prefix has already toggled the operand size
-        me.opmode, me.admode = (afs.u16 if 0x66 in prefix else afs.u32), afs.u32
+        me.opmode, me.admode = (afs.u16 if 0x66 in prefix else afs.u32), (admode or afs.u32)
         m_ = Obj('m')
         m_.name = name
         m_.modifs = {self.env['mmx']: True}
@@ -354,7 +354,7 @@ class X86Model(object):
             raise AnalysisError('_dis MMX/SSE mode selection for %s is outside the evaluable subset: %s' % (name, e))
         return me.opmode, me.admode, scope['swap_args']
 
-    def dis_mmx_rejected_early(self, name, prefix):
+    def dis_mmx_rejected_early(self, name, prefix, admode=None):
         """Does _dis return None for this MMX/SSE row and prefix list before looking at operands
         (top-level `if m.modifs[mmx]: ... return None` guards, e.g. the INVALID entries of mmx_suffixes)?"""
         from .srcmodel import walk_no_nested, parent
@@ -367,7 +367,7 @@ class X86Model(object):
                                and any(isinstance(x, ast.Return) for x in ast.walk(n)) and not any(isinstance(x, ast.Call) and 'get_afs' in u(x.func) for x in ast.walk(n))]
         if not self._mmx_early:
             return False
-        me, scope = self._mmx_scope(name, prefix)
+        me, scope = self._mmx_scope(name, prefix, admode)
         scope['mmx_set_suffix'] = Native(self.mmx_set_suffix)
         ev = Evaluator({})
         ev.env = scope
